@@ -262,15 +262,15 @@ public:
   std::vector<std::string> RealComponents() const override { return { "ccl::oss::OSSchema with grid / graph / source / operations facets", "RSSProcessor, ops::BinarySynthes, ops::RSAggregator, RSEquationProcessor", "semantic::RSForm operands and results", "JSON (de)serialisation of the OSS", "Environment singleton" }; }
   std::vector<std::string> StubComponents() const override { return { "SourceManager and Sources (simulator-owned, following the contract of the upstream FakeSourceManager; faults: save / write / create / open failures, rejected domain, refused rename, duplicated, delayed and lost announcements, destroyed and replaced documents)", "document store of sources and of the OSS (crash / restart with permuted item order)", "identifier entropy (hook H1)", "text processor stub" }; }
   std::string Rule(const std::string& f) const override {
-    return std::string("one evaluation = one seeded run: 10-50 ops by three kinds of clients chosen by the scheduler — OSS operator (InsertBase, InsertOperation, Erase, titles, ShiftPict, ConnectPict2Src / ConnectSrc2Pict, Rename, Discard, OpenSrc, ReconnectAll, InitFor merge / synthesis with a table drawn from the parents' constituents, Execute, ExecuteAll, IsExecutable, IsTranslatable), editors of sources (Emplace, SetExpressionFor, Erase, SetTermFor on operands and on results) and the environment (new source, save = announcement, close, open, destroy, replace while closed, save OSS, crash and restart with permuted items + ReconnectAll), with source-manager faults attached to ops. ")
-      + (f == "C12" ? "Oracle (C12 facet): after every successful Execute the stored result and translations satisfy the synthesis postconditions against a synthesis of the parents recomputed by the harness." : "Oracles: structure invariants (two distinct existing parents, acyclic, one grid cell and one source handle per pictogram, only leaves erased, refused edits change nothing) after every step; after a successful Execute the result equals the harness's own synthesis of the parents' current schemas on the inherited part and carries over user additions; freshness: an operation with a stored result that reports done has parents whose recorded core hash equals the one at its last execution; announcements are taken in.")
+    return std::string("one evaluation = one seeded run: 10-50 ops by three kinds of clients chosen by the scheduler — OSS operator (InsertBase, InsertOperation, Erase, titles, ShiftPict, ConnectPict2Src / ConnectSrc2Pict, Rename, Discard, OpenSrc, ReconnectAll, InitFor merge / synthesis with a table drawn from the parents' constituents, Execute, ExecuteAll, IsExecutable, IsTranslatable), editors of sources (Emplace, SetExpressionFor, Erase, SetTermFor on operands and on results) and the environment (new source, save = announcement, close, open, destroy, replace while closed, save OSS, crash and restart with permuted items, permuted or interleaved connection records + ReconnectAll), with source-manager faults attached to ops. ")
+      + (f == "C12" ? "Oracle (C12 facet): after every successful Execute the stored result and translations satisfy the synthesis postconditions against a synthesis of the parents recomputed by the harness." : "Oracles: structure invariants (two distinct existing parents, acyclic, one grid cell and one source handle per pictogram, only leaves erased, refused edits change nothing) after every step; after a successful Execute the result equals the harness's own synthesis of the parents' current schemas on the inherited part and carries over user additions; freshness: an operation with a stored result that reports done has parents whose recorded core hash equals the one at its last execution; announcements are taken in; freshness_model (independent of the OSS's records): no operation reports done after the document associated with one of its parents announced, after the operation's last execution, a formal content different from the one used; in 25 % of runs a second phase in which environment events and editors dominate.")
       + " distinct_nontrivial = distinct whole-run op-kind sequences.";
   }
-  std::vector<std::string> Assumptions(const std::string&) const override { return { "the environment follows the contract embodied by the upstream FakeSourceManager; a notification is never delivered for a source Find cannot return", "re-execution is witnessed by the identity of the stored translations object; the freshness basis is read right after the op that executed the operation", "user additions are compared up to identifier renaming" }; }
+  std::vector<std::string> Assumptions(const std::string&) const override { return { "the environment follows the contract embodied by the upstream FakeSourceManager; a notification is never delivered for a source Find cannot return", "re-execution is witnessed by the identity of the stored translations object; the freshness basis is read right after the op that executed the operation", "user additions are compared up to identifier renaming", "freshness_model: 'a pictogram's source' is the document the OSS last attached to it, for as long as the pictogram's handle keeps naming that existing document; a step with an injected source-manager fault, or a second pictogram naming the same document, ends the association; only announcements made by the source manager after the operation's last execution count" }; }
 
   bool GenOp(Ctx& c, Op& op) override;
   void Exec(Ctx& c, const Op& op) override;
-  void End(Ctx& c) override { if (S) { CheckStructure(c, "end"); if (!c.Failed()) CheckFreshness(c, "end"); } }
+  void End(Ctx& c) override { if (S) { CheckStructure(c, "end"); if (!c.Failed()) CheckFreshness(c, "end"); if (!c.Failed()) CheckFreshnessModel(c, "end"); } }
 };
 
 #include "osssim_ops.inc"
